@@ -29,7 +29,7 @@ Print Assumptions C09_earlier_bindings_survive.
 
 Theorem C09_literal_pattern_matches_equal_value_only :
   forall fuel rho lit v,
-    bind_pat (S (S fuel)) rho (PExpr (ELit lit)) (D v) = if veqb lit v then Ok [] else Err.
+    bind_pat (S (S fuel)) rho (PExpr (ELit lit)) (D v) = if veqb (norm lit) v then Ok [] else Err.
 Proof. exact bind_literal. Qed.
 Print Assumptions C09_literal_pattern_matches_equal_value_only.
 
